@@ -202,7 +202,11 @@ def run_one(case):
             checks += 1
             qs = abs(q) + nrm(x) ** 2 * 1e-3
             ptol = 1e-9 if not (toep or single) else 1e-4
-            if not (abs(q.imag) <= ptol * qs and q.real >= -ptol * qs):
+            # (+ tol * sc * ||x||: q inherits the rounding of A.N x, which the value check
+            # above allows up to tol * sc - trees with large intermediate gains and cancelling
+            # parts carry round-off far above eps * |q|)
+            slack_ = tol * sc * nrm(x)
+            if not (abs(q.imag) <= ptol * qs + slack_ and q.real >= -ptol * qs - slack_):
                 return violated(sig, "<A.N x, x> = %s is not real non-negative" % q, wit,
                                 mech="psd", obs={"q": [q.real, q.imag]})
         obs["rel"] = worst
